@@ -203,6 +203,7 @@ def run(ctx):
             an = safe_annot(random.Random(rng.getrandbits(32)))
             annotate(t, an)
         judge(ctx, t, v, an)
+        ctx.remember(judge, ctx, t, v, an)
         if T.contains(t, 'address') and T.comparable(t):
             judge(ctx, t, v, an, spelled_default=True)
     # tickets: contents types that share their outermost constructor but differ below it, alternating within one process
@@ -227,6 +228,7 @@ def run(ctx):
         if ctx.mine(k) and T.packable(t):
             ctx.count('corpus_values')
             judge(ctx, t, v, C.annot_fn(texpr) if k % 2 == 0 else None)
+    ctx.run_again()
     ctx.require('roundtrips', 300)
     ctx.require('layouts_compared' if not ctx.violations else 'roundtrips', 100)
 
